@@ -263,6 +263,8 @@ fn m(entries: Vec<(&str, Value)>) -> Value {
 pub fn contexts(rng: &mut Rng) -> (Vec<(String, Value)>, Vec<(String, Value)>) {
     let mut ctx: Vec<(String, Value)> = vec![
         ("t".into(), Value::from(true)),
+        ("acc".into(), Value::from("ca")),
+        ("flag".into(), Value::from(false)),
         ("f".into(), Value::from(false)),
         ("z".into(), Value::from(0u64)),
         ("es".into(), Value::from("")),
@@ -292,10 +294,10 @@ pub fn contexts(rng: &mut Rng) -> (Vec<(String, Value)>, Vec<(String, Value)>) {
     let mut glob: Vec<(String, Value)> = vec![("gl".into(), Value::from("G"))];
     // shadowing candidates: each of v, w bound in context and/or global
     for n in ["v", "w"] {
-        match rng.below(4) {
-            0 => ctx.push((n.into(), Value::from(format!("c{n}")))),
-            1 => glob.push((n.into(), Value::from(format!("g{n}")))),
-            2 => {
+        match rng.below(8) {
+            0..=2 => ctx.push((n.into(), Value::from(format!("c{n}")))),
+            3..=4 => glob.push((n.into(), Value::from(format!("g{n}")))),
+            5..=6 => {
                 ctx.push((n.into(), Value::from(format!("c{n}"))));
                 glob.push((n.into(), Value::from(format!("g{n}"))));
             }
@@ -427,7 +429,7 @@ fn loop_target(rng: &mut Rng, sc: &Scope) -> (Expr, Kind, bool) {
         6 => (var("nest"), Kind::List, false),
         7 if !lists.is_empty() => (var(&rng.pick(&lists).0), Kind::Scalar, false),
         8 => (var("one"), Kind::Scalar, false),
-        9 => (var(*rng.pick(&["z", "u", "t"])), Kind::Scalar, false), // not iterable / undefined: error
+        9 if rng.chance(1, 3) => (var(*rng.pick(&["z", "u", "t"])), Kind::Scalar, false), // not iterable / undefined: error
         10 => (Expr::Filter(Box::new(var(*rng.pick(&["u", "arr"]))), "default", vec![("value".into(), var("one"))]), Kind::Scalar, false),
         _ => (var("arr"), Kind::Scalar, false),
     }
